@@ -136,6 +136,11 @@ func (qe *queryEvent) startQueryListener() {
 			qe.handleQueryRequest(m)
 		})
 	}
+	// The channel is closed when the query event has expired. Queued last,
+	// the nil call comes after every received query request.
+	qe.r.s.runWith(qe.r.Group(), func() {
+		qe.cb(nil)
+	})
 }
 
 // handleQueryRequest is called by the query listener on incoming query requests.
